@@ -31,6 +31,14 @@ package main
 //                                        listed with the qualified name
 // Writes located in init() functions and in initialisers of package variables run before any
 // library call and are listed separately (pkg_init_writes).
+// pkg_process_state_calls (call, function, state): calls that change state of the whole PROCESS, which every
+// goroutine shares although no Go variable of in_toto is involved and the race detector cannot see it:
+// working directory (os.Chdir, (*os.File).Chdir, syscall.Chdir/Fchdir/Chroot), environment (os.Setenv/Unsetenv/
+// Clearenv, syscall.Setenv...), umask and ids (syscall.Umask/Setuid/...), signal dispositions (signal.Notify/
+// Ignore/Reset), the default logger (log.SetOutput/SetFlags/SetPrefix), the global random source (rand.Seed), the
+// default HTTP mux (http.Handle/HandleFunc), the global flag set (flag.Parse/Set/...Var), runtime knobs
+// (runtime.GOMAXPROCS, debug.Set*), time.Local through assignments. Assignments to variables of imported
+// packages (http.DefaultClient = ..., os.Stdout = ...) are already in pkg_var_writes with kind *-foreign.
 // pkg_var_escapes: a package variable of map/slice/pointer/chan/func (or undetermined) type that is
 // copied into a local, passed as an argument, returned, stored or captured, so that it could be
 // modified through an alias the syntactic inventory cannot follow.
@@ -60,6 +68,8 @@ type gPkg struct {
 	writes   []gWrite // in ordinary functions
 	initW    []gWrite // in init() and in package-level initialisers
 	escapes  []gWrite
+	procs    []gWrite // calls mutating process-global state (v = call, kind = which state), ordinary functions
+	procsI   []gWrite // the same inside init() / package-level initialisers
 	inits    []string
 	mode     string
 	nFuncs   int
@@ -508,6 +518,8 @@ func (a *gAnalysis) walk() {
 	sort.SliceStable(a.res.writes, less(a.res.writes))
 	sort.SliceStable(a.res.initW, less(a.res.initW))
 	sort.SliceStable(a.res.escapes, less(a.res.escapes))
+	sort.SliceStable(a.res.procs, less(a.res.procs))
+	sort.SliceStable(a.res.procsI, less(a.res.procsI))
 }
 
 func (a *gAnalysis) builtin(c *ast.CallExpr) string {
@@ -597,6 +609,7 @@ func (a *gAnalysis) inspect(root ast.Node) {
 		case *ast.IndexExpr:
 			a.markBenign(x.X) // v[k] read (a write was handled at the enclosing statement)
 		case *ast.CallExpr:
+			a.processCall(x)
 			switch a.builtin(x) {
 			case "delete", "clear", "copy":
 				if len(x.Args) > 0 {
@@ -645,6 +658,56 @@ func (a *gAnalysis) inspect(root ast.Node) {
 		}
 		return true
 	})
+}
+
+// process-global state: import path -> function -> which state
+var processStateCalls = map[string]map[string]string{
+	"os": {"Chdir": "cwd", "Setenv": "env", "Unsetenv": "env", "Clearenv": "env"},
+	"syscall": {"Chdir": "cwd", "Fchdir": "cwd", "Chroot": "cwd", "Setenv": "env", "Unsetenv": "env", "Clearenv": "env", "Umask": "umask",
+		"Setuid": "ids", "Setgid": "ids", "Setreuid": "ids", "Setregid": "ids", "Setgroups": "ids", "Setrlimit": "rlimit"},
+	"golang.org/x/sys/unix": {"Chdir": "cwd", "Fchdir": "cwd", "Chroot": "cwd", "Setenv": "env", "Unsetenv": "env", "Clearenv": "env", "Umask": "umask",
+		"Setuid": "ids", "Setgid": "ids", "Setreuid": "ids", "Setregid": "ids", "Setgroups": "ids", "Setrlimit": "rlimit"},
+	"os/signal":     {"Notify": "signals", "Ignore": "signals", "Reset": "signals", "Stop": "signals", "NotifyContext": "signals"},
+	"log":           {"SetOutput": "default-logger", "SetFlags": "default-logger", "SetPrefix": "default-logger"},
+	"math/rand":     {"Seed": "global-rand"},
+	"net/http":      {"Handle": "default-http-mux", "HandleFunc": "default-http-mux"},
+	"runtime":       {"GOMAXPROCS": "runtime", "LockOSThread": "runtime"},
+	"runtime/debug": {"SetGCPercent": "runtime", "SetMaxThreads": "runtime", "SetMaxStack": "runtime", "SetMemoryLimit": "runtime", "SetPanicOnFault": "runtime", "SetTraceback": "runtime"},
+	"flag": {"Parse": "global-flags", "Set": "global-flags", "Var": "global-flags", "BoolVar": "global-flags", "StringVar": "global-flags",
+		"IntVar": "global-flags", "Bool": "global-flags", "String": "global-flags", "Int": "global-flags", "Duration": "global-flags", "DurationVar": "global-flags"},
+}
+
+// processCall records pkg.F(...) / f.Chdir() when it changes process-global state.
+func (a *gAnalysis) processCall(call *ast.CallExpr) {
+	sel, ok := call.Fun.(*ast.SelectorExpr)
+	if !ok {
+		return
+	}
+	name, state := "", ""
+	if x, ok := sel.X.(*ast.Ident); ok {
+		if p := a.importedPkg(x); p != "" {
+			if st := processStateCalls[p][sel.Sel.Name]; st != "" {
+				name, state = p+"."+sel.Sel.Name, st
+			}
+		}
+	}
+	if name == "" && sel.Sel.Name == "Chdir" && len(call.Args) == 0 {
+		name, state = "(*os.File).Chdir", "cwd" // method with this name and no argument: fchdir
+	}
+	if name == "" {
+		return
+	}
+	key := fmt.Sprintf("P|%v|%s|%s", a.inInit, name, a.curFn)
+	if a.seen[key] {
+		return
+	}
+	a.seen[key] = true
+	w := gWrite{name, a.curFn, state, call.Pos()}
+	if a.inInit {
+		a.res.procsI = append(a.res.procsI, w)
+	} else {
+		a.res.procs = append(a.res.procs, w)
+	}
 }
 
 // methodCall classifies recv.M(...) when recv is rooted in a package variable.
@@ -774,12 +837,16 @@ func genGlobals(repo string) (string, error) {
 	sb.WriteString("Definition pkg_var_writes : list (str * str * str) := " + coqTriples(lib.writes) + ".\n\n")
 	sb.WriteString("(* reference-typed package variables that escape into a local, an argument, a result or a closure *)\n")
 	sb.WriteString("Definition pkg_var_escapes : list (str * str * str) := " + coqTriples(lib.escapes) + ".\n\n")
+	sb.WriteString("(* (call, function, state): calls that change process-global state (cwd, environment, umask, signals, default logger,\n")
+	sb.WriteString("   global rand, default HTTP mux, global flags, runtime knobs): shared by all goroutines, invisible to the race detector *)\n")
+	sb.WriteString("Definition pkg_process_state_calls : list (str * str * str) := " + coqTriples(lib.procs) + ".\n")
+	sb.WriteString("Definition pkg_init_process_state_calls : list (str * str * str) := " + coqTriples(lib.procsI) + ".\n\n")
 	sb.WriteString("Definition pkg_init_funcs : list str := " + coqStrList(lib.inits) + ".\n")
 	sb.WriteString("(* writes performed by init() and by package-level initialisers: before any library call *)\n")
 	sb.WriteString("Definition pkg_init_writes : list (str * str * str) := " + coqTriples(lib.initW) + ".\n\n")
 
 	// the command line front end and internal packages: listed for completeness, not part of the library property
-	var ovars, owrites, oinit []string
+	var ovars, owrites, oinit, oprocs []string
 	for _, d := range goDirs(repo, "cmd", "internal", filepath.Join("in_toto", "slsa_provenance")) {
 		p, err := analyseGlobals(repo, d, false)
 		if err != nil {
@@ -790,6 +857,9 @@ func genGlobals(repo string) (string, error) {
 		}
 		for _, w := range p.writes {
 			owrites = append(owrites, fmt.Sprintf("(%s, %s, %s, %s)", coqStr(d), coqStr(w.v), coqStr(w.fn), coqStr(w.kind)))
+		}
+		for _, w := range append(append([]gWrite{}, p.procs...), p.procsI...) {
+			oprocs = append(oprocs, fmt.Sprintf("(%s, %s, %s, %s)", coqStr(d), coqStr(w.v), coqStr(w.fn), coqStr(w.kind)))
 		}
 		for _, w := range p.initW {
 			oinit = append(oinit, fmt.Sprintf("(%s, %s, %s, %s)", coqStr(d), coqStr(w.v), coqStr(w.fn), coqStr(w.kind)))
@@ -806,6 +876,7 @@ func genGlobals(repo string) (string, error) {
 	sb.WriteString("Definition other_pkg_vars : list (str * str * str) := " + lst(ovars, "str * str * str") + ".\n")
 	sb.WriteString("Definition other_pkg_var_writes : list (str * str * str * str) := " + lst(owrites, "str * str * str * str") + ".\n")
 	sb.WriteString("Definition other_pkg_init_writes : list (str * str * str * str) := " + lst(oinit, "str * str * str * str") + ".\n")
+	sb.WriteString("Definition other_pkg_process_state_calls : list (str * str * str * str) := " + lst(oprocs, "str * str * str * str") + ".\n")
 	return sb.String(), nil
 }
 
